@@ -48,7 +48,16 @@ def run(case):
         if case.get("k") == "ann":
             from harness.annutil import mk_ann
             a = mk_ann(tb, case["recs"], "u")
-            r = a.get_overlap() if case["labels"] is None else a.get_overlap(labels=list(case["labels"]))
+            if case["labels"] is None:
+                r = a.get_overlap()
+            else:
+                # `labels` is an Iterable: a list, a tuple, a set, a dict view, or a one-shot iterator / generator
+                ls = list(case["labels"])
+                how = (len(ls) + len(case["recs"])) % 6
+                # (an EMPTY `labels` stays a list: the code tests its truthiness, so [] means "all labels" while an
+                # empty iterator means "none"; DESIGN 4/C10 excludes the empty case from "when given")
+                arg = [ls, tuple(ls), set(ls), dict.fromkeys(ls).keys(), iter(ls), (x for x in ls)][how] if ls else ls
+                r = a.get_overlap(labels=arg)
             return {"overlap": segs_of(tb, r)}
         t = mk_tl(tb, case["segs"])
         out = {"segmentation": segs_of(tb, t.segmentation()), "overlap": segs_of(tb, t.get_overlap())}
